@@ -47,6 +47,14 @@ def random_its(rng, max_nodes=7):
             if rng.random() < 0.15:
                 mtg.add((i, j))
     G = make_its(ids, els, labels, mtg)
+    # some atoms change their charge and / or hydrogen count (also atoms none of whose bonds change)
+    for n_, d in G.nodes(data=True):
+        if rng.random() < 0.3:
+            ql, qr = rng.choice([(0, 1), (0, -1), (1, 0), (-1, 0), (1, 1)])
+            hl, hr = rng.choice([(0, 0), (1, 0), (0, 1), (2, 3), (1, 1)])
+            el = d["element"]
+            d["charge"], d["hcount"] = ql, hl
+            d["typesGH"] = ((el, False, hl, ql, []), (el, False, hr, qr, []))
     # a few irregular attributes the code must tolerate
     for u, v, d in G.edges(data=True):
         r = rng.random()
